@@ -47,8 +47,32 @@ def float_sizes(rng, r):
     return False
 
 
-def gen_cases(rng, n_valid, n_fault):
+def iterator_named_like_a_parameter():
+    """A sum whose dummy bears the name of a parameter used FREE next to it: in a sibling's cost (added up in the parent), or
+    in the very same expression.  A bound name is not the parameter; assigning the parameter must not touch the sum."""
+    def node(name, params=(), links=(), kids=(), res=(), rep=None):
+        return {"name": name, "type": None, "input_params": list(params), "local_variables": [], "linked_params": [list(l) for l in links],
+                "ports": [], "resources": list(res), "connections": [], "repetition": rep, "children": list(kids)}
     out = []
+    for it in ("k", "i", "N"):
+        other = "N" if it != "N" else "M"
+        summed = ["b", "sum", it, E.op("add", E.sym(it), E.num(1)), E.num(0), E.op("sub", E.sym(other), E.num(1))]
+        ladder = node("ladder", params=[other], res=[{"name": "T", "type": "additive", "value": summed}])
+        tail = node("tail", params=[it], res=[{"name": "T", "type": "additive", "value": E.op("mul", E.num(2), E.sym(it))}])
+        out.append({"routine": node("root", params=[other, it], links=[[other, [["ladder", other]]], [it, [["tail", it]]]], kids=[ladder, tail]),
+                    "faulted": False, "seed": 5})
+        both = node("both", params=[other, it], res=[{"name": "T", "type": "additive", "value": E.op("add", summed, E.op("mul", E.num(2), E.sym(it)))}])
+        out.append({"routine": node("root", params=[other, it], links=[[other, [["both", other]]], [it, [["both", it]]]], kids=[both]),
+                    "faulted": False, "seed": 6})
+        prod = ["b", "prod", it, E.op("add", E.sym(it), E.num(2)), E.num(1), E.sym(other)]
+        out.append({"routine": node("root", params=[other, it],
+                                    res=[{"name": "P", "type": "multiplicative", "value": E.op("mul", prod, E.op("add", E.sym(it), E.num(1)))}]),
+                    "faulted": False, "seed": 7})
+    return out
+
+
+def gen_cases(rng, n_valid, n_fault):
+    out = iterator_named_like_a_parameter()
     while len(out) < n_valid:
         r = H.gen_hierarchy(rng, max_depth=rng.randint(1, 3), p_rep=0.35, p_through=0.2)
         if H.count_nodes(r) <= 10:
